@@ -11,6 +11,7 @@ import (
 	"github.com/btcsuite/btcd/wire/v2"
 
 	"verif/internal/chaingen"
+	"verif/internal/netsim"
 	"verif/internal/ref"
 )
 
@@ -107,7 +108,10 @@ func (m *APIMonitor) sample(r *rand.Rand) {
 		}
 	case 1:
 		if len(m.cps) > 0 {
-			c := m.cps[r.Intn(len(m.cps))] - int32(r.Intn(40))
+			c := m.cps[r.Intn(len(m.cps))]
+			if r.Intn(2) == 0 {
+				c -= int32(r.Intn(40))
+			}
 			if c >= 0 && c <= int32(tipH) {
 				h = c
 			}
@@ -146,6 +150,15 @@ func (m *APIMonitor) sample(r *rand.Rand) {
 	rel := "above-last-checkpoint"
 	if n := len(m.cps); n > 0 && h <= m.cps[n-1] {
 		rel = "at-or-below-last-checkpoint"
+	}
+	for _, c := range m.w.G.P.Checkpoints {
+		if c.Height == h && errA == nil && *hash != *c.Hash {
+			w := wit()
+			w["reported_hash"] = hash.String()
+			w["checkpoint_hash"] = c.Hash.String()
+			m.report("c01/l2/reported-header-misses-checkpoint",
+				fmt.Sprintf("GetBlockHash(%d) reports %v, which is not the hard-coded checkpoint %v of that height (store tip %d)", h, hash, c.Hash, preTipH), w)
+		}
 	}
 	switch {
 	case errA != nil:
@@ -303,6 +316,10 @@ func sortInt32(a []int32) {
 // time and a full read-back through the public lookups at every quiescent
 // point.
 func RunReported(seed int64, k int, res *Result) {
+	if k%5 == 1 {
+		RunReportedRestart(seed, k, res)
+		return
+	}
 	rp := ReportedPlanFromSeed(seed, k)
 	res.Name = fmt.Sprintf("c01-l2-%d", k)
 	b := Build(rp.Plan)
@@ -384,3 +401,105 @@ func RunReported(seed int64, k int, res *Result) {
 }
 
 var _ = chainhash.Hash{}
+
+// RunReportedRestart is the restart shape of the family: a first run of the
+// client stores block headers up to a height between two checkpoints while
+// the peers withhold filter headers (so the filter-header tip stays below the
+// lower checkpoint), the client is stopped and started again on the same data
+// directory, and its first peer then serves, a few headers per message, a
+// valid fork that leaves the honest chain above the stored tip and does not
+// contain the upper checkpoint. k == 1 is fixed.
+func RunReportedRestart(seed int64, k int, res *Result) {
+	r := rand.New(rand.NewSource(seed*1_000_003 + int64(k)*104729 + 17))
+	chainLen, cpLo, cpHi, stopAt, forkAt, batch := 200, int32(50), int32(150), int32(100), int32(120), 10
+	if k != 1 {
+		chainLen = 120 + r.Intn(200)
+		cpLo = int32(15 + r.Intn(chainLen/3))
+		cpHi = cpLo + 20 + int32(r.Intn(chainLen/3))
+		stopAt = cpLo + 1 + int32(r.Intn(int(cpHi-cpLo-2)))
+		forkAt = stopAt + int32(r.Intn(int(cpHi-stopAt)))
+		if forkAt >= cpHi {
+			forkAt = cpHi - 1
+		}
+		batch = 4 + r.Intn(30)
+	}
+	res.Name = fmt.Sprintf("c01-l2-%d", k)
+	res.Fingerprint = fmt.Sprintf("restart-between-checkpoints first=lighter-fork fork-above-stored-tip=%v batch<%d", forkAt > stopAt, 10*(1+batch/10))
+	w := NewWorld(Config{Seed: seed*1_000_003 + 700_000 + int64(k), Preset: k % chaingen.NumPresets, Interval: 4 + r.Intn(13), SpacingSec: 4,
+		GenesisAgo: time.Duration(chainLen+400) * 6 * time.Second})
+	defer w.Cleanup()
+	g := w.G
+	trunk := g.Extend(g.Genesis, chainLen, chaingen.PaceNormal)
+	tip := trunk[len(trunk)-1]
+	g.SetCheckpoints(tip, cpLo, cpHi)
+	plan := map[string]any{"chain": chainLen, "checkpoints": []int32{cpLo, cpHi}, "first_run_stops_at": stopAt, "fork_at": forkAt, "hdr_batch": batch}
+	var withhold atomic.Bool
+	withhold.Store(true)
+	honest := w.AddPeer(tip.Ancestor(stopAt))
+	honest.Mutate = func(p *netsim.Peer, req wire.Message, hon []wire.Message) []wire.Message {
+		switch req.(type) {
+		case *wire.MsgGetCFHeaders, *wire.MsgGetCFCheckpt:
+			if withhold.Load() {
+				return nil
+			}
+		}
+		return hon
+	}
+	if err := w.StartClient(nil, ClientOpts{}); err != nil {
+		res.Inconcl("client start failed: " + err.Error())
+		return
+	}
+	if !WaitFor(60*time.Second, func() bool {
+		_, h, err := w.Svc.BlockHeaders.ChainTip()
+		return err == nil && int32(h) == stopAt
+	}) {
+		res.Inconcl("first run did not store the block headers up to the stop height")
+		_, _ = w.StopClient(30 * time.Second)
+		return
+	}
+	_, fh, _ := w.Svc.RegFilterHeaders.ChainTip()
+	if ok, _ := w.StopClient(60 * time.Second); !ok {
+		res.Inconcl("Stop did not return (C17's subject)")
+		return
+	}
+	res.Count("restarts_with_filter_tip_below_a_checkpoint_below_the_block_tip", 1)
+	plan["filter_tip_at_restart"] = fh
+	// Second run: the fork peer first, then the honest one with everything.
+	withhold.Store(false)
+	honest.View.SetTip(tip)
+	br := g.Extend(tip.Ancestor(forkAt), int(tip.Height-forkAt)-1, chaingen.PaceNormal)
+	liar := w.AddPeer(br[len(br)-1])
+	liar.HdrBatch, liar.Delay = batch, 4*time.Millisecond
+	w.Net.Refuse(honest.Addr, true)
+	if err := w.StartClient(nil, ClientOpts{Dir: w.Dir}); err != nil {
+		res.Inconcl("client restart failed: " + err.Error())
+		return
+	}
+	mon := w.StartAPIMonitor(w.Seed)
+	WaitFor(3*time.Second, func() bool { return liar.RxCount("getheaders") > 0 })
+	// Let the fork peer serve its chain (steering only), then admit the honest peer.
+	WaitFor(5*time.Second, func() bool {
+		_, h, err := w.Svc.BlockHeaders.ChainTip()
+		return err == nil && int32(h) >= br[len(br)-1].Height || liar.Conn() == nil || liar.Conn().Dead()
+	})
+	w.Net.Refuse(honest.Addr, false)
+	synced := WaitFor(120*time.Second, func() bool { return w.SyncedTo(tip) })
+	for _, v := range mon.Stop() {
+		v.Witness.(map[string]any)["plan"] = plan
+		res.Violations = append(res.Violations, v)
+	}
+	res.Count("api_samples_judged", mon.Samples.Load())
+	res.Count("api_samples_dropped(chain_moved)", mon.Unstable.Load())
+	res.Count("api_distinct_heights", int64(mon.DistinctHeights()))
+	if sig, what := w.ValidateReported(); sig != "" {
+		res.Violate("c01/l2/"+sig+"/after-restart", what+" (after a restart between two checkpoints)", map[string]any{"plan": plan, "event_log_tail": w.Log.Tail(30)})
+	} else {
+		res.Count("full_readbacks_through_api", 1)
+	}
+	if !synced && len(res.Violations) == 0 {
+		res.Inconcl("client did not reach the honest tip within 120 s after the restart (C04's subject)")
+	}
+	res.Nontrivial = true
+	_, _ = w.StopClient(30 * time.Second)
+	res.Sample = map[string]any{"scenario": res.Name, "plan": plan, "api_samples": mon.Samples.Load()}
+}
